@@ -71,6 +71,19 @@ def run(ctx):
             ctx.unknown('T27', eq.fq, 'no isinstance(other, %s) branch found' % cname, eq.loc)
         else:
             onepass.pair_view(ctx, eq, branch[0].body, ['self', eq.params[1]], 'comparison of two %ss' % cname)
+        # T29: a padding value used while comparing two pair sequences must not be able to equal a real pair: it is built
+        # from a unique sentinel object, never from literals ((None, None) is a legal pair)
+        for n in ast.walk(eq.node):
+            if isinstance(n, ast.Call) and call_name(n).endswith('zip_longest'):
+                fv = next((k.value for k in n.keywords if k.arg == 'fillvalue'), None)
+                names = {x.id for x in ast.walk(fv) if isinstance(x, ast.Name)} if fv is not None else set()
+                mod_ = prog.module(mod)
+                sentinels = {nm for nm in names if nm in mod_.assigns and any(
+                    isinstance(v, ast.Call) and call_name(v) in ('make_sentinel', 'object') for v, _, _ in mod_.assigns[nm])}
+                lits = [x for x in ast.walk(fv) if isinstance(x, ast.Constant)] if fv is not None else []
+                ok = fv is not None and bool(sentinels) and not lits
+                ctx.ob('T29', eq.fq, 'the padding of the pairwise comparison cannot equal a real (key, value) pair (unique sentinel, no literal)',
+                       ok, loc='%s:%d' % (eq.module.relpath, n.lineno), detail='fillvalue=%s' % (txt(fv) if fv is not None else 'None (default)'))
         gs = prog.resolve(prog.cls(cls), '__getstate__')
         if isinstance(gs, FuncInfo):
             onepass.pair_view(ctx, gs, gs.node.body, ['self'], 'pickled / copied state')
